@@ -116,6 +116,27 @@ fn c01(tier: Tier) -> Vec<SeqCfg> {
     let mut r = base("C01/random-unreached", "C01", a.clone(), if tier == Tier::Quick { 5 } else { 6 }, tier);
     r.sut.policy = Policy::Random(1 << 40);
     cfgs.push(r);
+    {
+        // unusual keys (1 byte, 250 bytes, binary) with the default 1 KiB test limit, quick tier too
+        let k250 = vec![b'K'; 250];
+        let kbin = vec![0u8, 0xff, b' ', b'\n'];
+        let ak = vec![
+            set(b"k", b"one", 1, 0),
+            set(&k250, &all_bytes(), 2, 0),
+            set(&kbin, b"bin", 3, 2),
+            get(b"k"),
+            getk(&k250),
+            get(&kbin),
+            getk(&kbin),
+            delete(&k250, CasArg::Zero),
+            append(&kbin, &[0u8], CasArg::Zero),
+            incr(&k250, 1, 5, 0, CasArg::Zero),
+            tick(2),
+        ];
+        let mut c = base("C01/keys", "C01", ak, if tier == Tier::Quick { 4 } else { 5 }, tier);
+        c.start_time = 7;
+        cfgs.push(c);
+    }
     if tier == Tier::Thorough {
         // unusual keys, default 1 MiB item limit, stores at a non-zero time
         let k250 = vec![b'K'; 250];
